@@ -14,7 +14,10 @@ RULE = ("Masking contexts and boundary injection (>= 70 % of cases) plus general
         "agrees with at(): at() raises DomainError <=> every route raises DomainError; a route returning a number at an "
         "undefined point or raising at a defined point is a violation.  Non-trivial = the undefined sub-term sits in a "
         "masking context (cannot influence the derivative) or at depth >= 2, or the point is within 2^-10 of a boundary "
-        "on the defined side; distinct by SHA-1 of (canonical model, point, variable).")
+        "on the defined side; distinct by SHA-1 of (canonical model, point, variable).  Part 'sequence': one expression object "
+        "with one derivative object per route queried at defined and undefined points in a row (boundary-injected "
+        "expression, its boundary point plus generated points): DomainError exactly at the undefined points whatever was "
+        "asked before; non-trivial there = the sequence contains both kinds of point.")
 ASSUMPTIONS = [
     "whether at() itself is right is C02's business: cases where at() disagrees with the reference are counted and skipped here",
     "cases classified range/undecided by the reference are skipped",
@@ -134,13 +137,126 @@ def make_roots(stats):
     return test
 
 
+SEQ_ROUTES = ["Partial.at/late", "Partial.at/early", "Differential.component_at/late", "Differential.at.component/early",
+              "LocatedDifferential.component", "at"]
+
+
+def run_sequence(m, envs, steps, var):
+    """ONE expression object and one derivative object per route, all built on it; the queries of `steps` in a row."""
+    e = build(m)
+    objs = {}
+
+    def obj(rt, make):
+        if rt not in objs:
+            objs[rt] = make()
+        return objs[rt]
+    outs = []
+    for rt, i in steps:
+        P = lib.Point(**envs[i])
+        if rt == "at":
+            outs.append(lib.call(lambda: e.at(P)))
+        elif rt == "Partial.at/late":
+            outs.append(lib.call(lambda: obj(rt, lambda: lib.Partial(e, var, compute_early=False)).at(P)))
+        elif rt == "Partial.at/early":
+            outs.append(lib.call(lambda: obj(rt, lambda: lib.Partial(e, var, compute_early=True)).at(P)))
+        elif rt == "Differential.component_at/late":
+            outs.append(lib.call(lambda: obj(rt, lambda: lib.Differential(e, compute_early=False)).component_at(var, P)))
+        elif rt == "Differential.at.component/early":
+            outs.append(lib.call(lambda: obj(rt, lambda: lib.Differential(e, compute_early=True)).at(P).component(var)))
+        elif rt == "LocatedDifferential.component":
+            outs.append(lib.call(lambda: lib.LocatedDifferential(e, P).component(var)))
+        else:
+            raise HarnessError(f"unknown sequence route {rt}")
+    return outs
+
+
+def check_sequence(stats, m, envs, steps, var, sub="sequence"):
+    """The same objects queried at defined and undefined points in a row: DomainError exactly at the undefined ones,
+    whatever was asked before (a failed query must not poison the next one, a successful one must not mask a failure)."""
+    m = safe(m)
+    stats.case()
+    expect = []
+    for env in envs:
+        r, _ctx = DV.value_context(m, env)
+        if r.st not in (RE.DEFINED, RE.UNDEF):
+            stats.count("sequence-undecided-point")
+            return
+        want = lib.DOM if r.st == RE.UNDEF else lib.NUM
+        if lib.call(lambda: build(m).at(lib.Point(**env))).kind != want:
+            stats.count("at-disagrees-with-reference")
+            return
+        expect.append(want)
+    outs = run_sequence(m, envs, steps, var)
+    trail = []
+    for k, ((rt, i), out) in enumerate(zip(steps, outs)):
+        trail.append(f"{rt} at {M.point_text(envs[i])} -> {out!r}")
+        if out.kind == lib.OVF or out.kind == expect[i]:
+            continue
+        case = make_case(sub, m, None, var=var, points=[M.point_to_json(x) for x in envs], steps=[list(x) for x in steps[:k + 1]])
+        where = f"d/d{var} of {M.text(m)[:250]}, one object, queries in a row: {'; '.join(trail)[-900:]}"
+        if expect[i] == lib.NUM and out.kind == lib.DOM and rt != "at":
+            if DV.rounding_excuse(m, var, envs[i], rt):
+                stats.count("folded-constant-rounding-skip")
+                continue
+
+            def again():
+                return run_sequence(m, envs, steps[:k + 1], var)[k].kind == lib.DOM
+            if findings.attributable_to_kf1(ID, again):
+                stats.known("KF1")
+                continue
+            raise violation(ID, sub, f"sequence-raises-on-defined:{rt}", case, f"{where}: the expression is defined at the last point")
+        if expect[i] == lib.DOM:
+            raise violation(ID, sub, f"sequence-answers-on-undefined:{rt}", case, f"{where}: the expression is undefined at the last point")
+        raise violation(ID, sub, f"sequence-other:{rt}:{out.kind}", case, f"{where}: expected {expect[i]}")
+    kinds = [expect[i] for _rt, i in steps]
+    stats.count("sequence-queries", len(steps))
+    if lib.DOM in kinds and lib.NUM in kinds:
+        stats.count("sequence-mixed")
+        stats.nontrivial_case(M.digest(M.canon(m), [sorted(x.items()) for x in envs], [list(x) for x in steps], var),
+                              {"expr": M.text(m)[:300], "variable": var, "sequence": trail[:6]})
+
+
+def make_sequence(stats):
+    @given(st.data())
+    def test(data):
+        names = data.draw(S.name_lists(1, 3))
+        if data.draw(st.integers(0, 3)) == 0:
+            m, env, _info = data.draw(BD.injected(names, depth=2))
+        else:
+            # a constrained node whose argument depends on the variables and sits exactly on the undefined side of its
+            # boundary at env (and, being a shifted polynomial, almost surely on the defined side at the other points)
+            m0 = data.draw(S.trees(names, depth=2))
+            env = data.draw(S.exact_points(names))
+            kind = data.draw(st.sampled_from(BD.KINDS))
+            b = 0 if kind in ("Reciprocal", "Divide", "NthRootOdd") else data.draw(st.sampled_from([0, -1, -(2.0 ** -10), -2.5]))
+            v = ("Variable", data.draw(st.sampled_from(names)))
+            poly = data.draw(st.sampled_from([v, ("NthPower", v, 2), ("Multiply", (v, v, v))]))
+            if data.draw(st.booleans()):
+                poly = ("Add", (poly, data.draw(S.poly_trees(names, depth=1))))
+            arg = BD.shifted(poly, env, b) or ("Add", (("Minus", v, ("Constant", env[v[1]])), ("Constant", b)))
+            node = data.draw(BD.constrained(names, arg, kind))
+            m = M.replace(m0, data.draw(st.sampled_from(M.paths(m0, limit=60))), node)
+        envs = [complete(m, env)] + [complete(m, data.draw(S.points(names, extra=False))) for _ in range(data.draw(st.integers(1, 2)))]
+        envs = data.draw(st.permutations(envs))
+        pool = M.variables(m) or ["absent"]
+        var = data.draw(st.sampled_from(pool + ["absent"]))
+        steps = data.draw(st.lists(st.tuples(st.sampled_from(SEQ_ROUTES), st.integers(0, len(envs) - 1)), min_size=2, max_size=7))
+        check_sequence(stats, m, list(envs), [tuple(x) for x in steps], var)
+    return test
+
+
 def parts(tier):
     n = 10000 if tier == "quick" else 200000
-    return [hyp_part("masked", make_masked, int(n * 0.4)), hyp_part("boundary", make_boundary, int(n * 0.3)),
-            hyp_part("general", make_general, int(n * 0.2)), hyp_part("roots", make_roots, int(n * 0.1))]
+    return [hyp_part("masked", make_masked, int(n * 0.35)), hyp_part("boundary", make_boundary, int(n * 0.25)),
+            hyp_part("general", make_general, int(n * 0.15)), hyp_part("roots", make_roots, int(n * 0.1)),
+            hyp_part("sequence", make_sequence, int(n * 0.15))]
 
 
 def replay(case):
+    if case.get("sub") == "sequence":
+        check_sequence(Stats(), case_model(case), [M.point_from_json(x) for x in case["points"]],
+                       [tuple(x) for x in case["steps"]], case["var"])
+        return
     check(Stats(), case_model(case), case_point(case), case["var"], case.get("as_object", False), case.get("info"),
           sub=case.get("sub", "domain"))
 
